@@ -42,7 +42,8 @@ bool Mul::is_canonical(const RCP<const Number> &coef,
             return false;
         // e.g. 0**x
         if (is_a<Integer>(*p.first)
-            and down_cast<const Integer &>(*p.first).is_zero())
+            and down_cast<const Integer &>(*p.first).is_zero()
+            and is_a_Number(*p.second))
             return false;
         // e.g. 1**x
         if (is_a<Integer>(*p.first)
@@ -59,7 +60,9 @@ bool Mul::is_canonical(const RCP<const Number> &coef,
                 return false;
             if (is_a_Number(*p.second)
                 and neq(*down_cast<const Mul &>(*p.first).coef_, *one)
-                and neq(*down_cast<const Mul &>(*p.first).coef_, *minus_one))
+                and neq(*down_cast<const Mul &>(*p.first).coef_, *minus_one)
+                and (down_cast<const Mul &>(*p.first).coef_->is_positive()
+                     or down_cast<const Mul &>(*p.first).coef_->is_negative()))
                 return false;
         }
         // e.g. x**2**y (={x**2:y}), which should be represented as x**(2y)
@@ -173,6 +176,25 @@ void Mul::dict_add_term(map_basic_basic &d, const RCP<const Basic> &exp,
     }
 }
 
+// Multiply `coef * d` by the already evaluated expression `r`
+static void mul_into_dict(const Ptr<RCP<const Number>> &coef,
+                          map_basic_basic &d, const RCP<const Basic> &r)
+{
+    if (is_a_Number(*r)) {
+        imulnum(coef, rcp_static_cast<const Number>(r));
+    } else if (is_a<Mul>(*r)) {
+        RCP<const Mul> m = rcp_static_cast<const Mul>(r);
+        imulnum(coef, m->get_coef());
+        for (const auto &q : m->get_dict()) {
+            Mul::dict_add_term_new(coef, d, q.second, q.first);
+        }
+    } else {
+        RCP<const Basic> exp_, t_;
+        Mul::as_base_exp(r, outArg(exp_), outArg(t_));
+        Mul::dict_add_term_new(coef, d, exp_, t_);
+    }
+}
+
 // Mul (t**exp) to the dict "d"
 void Mul::dict_add_term_new(const Ptr<RCP<const Number>> &coef,
                             map_basic_basic &d, const RCP<const Basic> &exp,
@@ -203,6 +225,17 @@ void Mul::dict_add_term_new(const Ptr<RCP<const Number>> &coef,
                     for (auto &p : m->dict_) {
                         Mul::dict_add_term_new(coef, d, p.second, p.first);
                     }
+                } else if (is_a<Pow>(*res)
+                           and not(eq(*down_cast<const Pow &>(*res).get_base(),
+                                      *t)
+                                   and eq(*down_cast<const Pow &>(*res)
+                                               .get_exp(),
+                                          *exp))) {
+                    // e.g. (1/2)**(-1/2) = 2**(1/2), (-1)**(-8/5) = (-1)**(2/5):
+                    // base or exponent have changed
+                    Mul::dict_add_term_new(
+                        coef, d, down_cast<const Pow &>(*res).get_exp(),
+                        down_cast<const Pow &>(*res).get_base());
                 } else {
                     insert(d, t, exp);
                 }
@@ -218,6 +251,9 @@ void Mul::dict_add_term_new(const Ptr<RCP<const Number>> &coef,
                         or not down_cast<const Number &>(*t).is_exact())) {
             imulnum(outArg(*coef), down_cast<const Number &>(*t).pow(
                                        down_cast<const Number &>(*exp)));
+        } else if (is_a<Pow>(*t) and is_a<Integer>(*exp)) {
+            // (b**e)**n = b**(e*n) for an integer n; pow() does the folding
+            mul_into_dict(coef, d, pow(t, exp));
         } else {
             insert(d, t, exp);
         }
@@ -242,6 +278,12 @@ void Mul::dict_add_term_new(const Ptr<RCP<const Number>> &coef,
             } else if (down_cast<const Integer &>(*(it->second)).is_zero()) {
                 d.erase(it);
                 return;
+            } else if (is_a<Pow>(*t)) {
+                // (b**e)**n = b**(e*n) for an integer n; pow() does the folding
+                RCP<const Basic> r = pow(t, it->second);
+                d.erase(it);
+                mul_into_dict(coef, d, r);
+                return;
             }
         } else if (is_a<Rational>(*it->second)) {
             if (is_a<Integer>(*t) or is_a<Rational>(*t)) {
@@ -265,6 +307,19 @@ void Mul::dict_add_term_new(const Ptr<RCP<const Number>> &coef,
                         Mul::dict_add_term_new(coef, d, p.second, p.first);
                     }
                     return;
+                } else if (is_a<Pow>(*res)
+                           and not(eq(*down_cast<const Pow &>(*res).get_base(),
+                                      *t)
+                                   and eq(*down_cast<const Pow &>(*res)
+                                               .get_exp(),
+                                          *it->second))) {
+                    // e.g. (1/2)**(-1/2) = 2**(1/2), (-1)**(-8/5) = (-1)**(2/5):
+                    // base or exponent have changed
+                    d.erase(it);
+                    Mul::dict_add_term_new(
+                        coef, d, down_cast<const Pow &>(*res).get_exp(),
+                        down_cast<const Pow &>(*res).get_base());
+                    return;
                 }
             }
         }
@@ -275,6 +330,12 @@ void Mul::dict_add_term_new(const Ptr<RCP<const Number>> &coef,
                     outArg(*coef),
                     pownum(rcp_static_cast<const Number>(it->second), zero));
                 d.erase(it);
+            } else if (is_a<Integer>(*t)
+                       and down_cast<const Integer &>(*t).is_zero()) {
+                // 0**z for a number z that is neither Integer nor Rational
+                RCP<const Basic> r = pow(t, it->second);
+                d.erase(it);
+                mul_into_dict(coef, d, r);
             } else if (is_a<Mul>(*it->first)) {
                 RCP<const Mul> m = rcp_static_cast<const Mul>(it->first);
                 if (is_a<Integer>(*it->second)
